@@ -6,6 +6,8 @@ CONSTANTS
   Vals = {1}
   MaxSnaps = 1
   MaxOps = 0
+  CodeIds = {}
+  Blocks = FALSE
   HistOn = FALSE
 INVARIANTS ReadsLogical SnapshotsCanonical FlushCanonical
 PROPERTIES SnapshotImmutable ResetRestores
